@@ -102,7 +102,9 @@ def step (s : St) (ws : List String) : St × String :=
         | _, _ => (s, "rej parse"))
      | _ => (s, "rej parse"))
   | "glob" :: rest =>
-    if rest.isEmpty then (s, s!"ok last={hex2 s.last0}{hex2 s.last1} curr={s.currChan} xds={if s.xds then 1 else 0}")
+    if rest.isEmpty then
+      let cur := if currChanPerField then s!"{s.currChan},{s.currChan2}" else s!"{s.currChan}"
+      (s, s!"ok last={hex2 s.last0}{hex2 s.last1} curr={cur} xds={if s.xds then 1 else 0}")
     else (s, "rej parse")
   | "chsw" :: rest =>
     if rest.isEmpty then
